@@ -582,6 +582,9 @@ pub struct WorldCfg {
     /// Misbehaving device that overwrites the descriptor table and the available ring (areas it
     /// must not write) at operation boundaries, while itself working from private snapshots.
     pub scribble: bool,
+    /// Fault: heap allocations of indirect descriptor tables sometimes fail (the global allocator
+    /// returns null for exactly that zero-initialised allocation).
+    pub heap_faults: bool,
 }
 
 impl Default for WorldCfg {
@@ -601,6 +604,7 @@ impl Default for WorldCfg {
             heap_watch: true,
             hostile: false,
             scribble: false,
+            heap_faults: false,
         }
     }
 }
